@@ -28,7 +28,7 @@ func eventSendsNotDroppable(c *core.Ctx, rule string, floor int) {
 		}
 		// select statements and their clauses
 		type selInfo struct {
-			sel   *ast.SelectStmt
+			sel    *ast.SelectStmt
 			clause *ast.CommClause
 		}
 		owner := map[ast.Node]selInfo{}
